@@ -65,12 +65,16 @@ def Loc.parse (s : String) : Option Loc :=
 (`first k`), or one call of `Iterator::nth(k)` (`nth k`: discards `k` elements, returns the next) -/
 inductive Take where
   | all | first (k : Nat) | nth (k : Nat)
+  | fold           -- everything, through `Iterator::fold`
+  | cnt            -- everything discarded, through `Iterator::count`
   deriving Repr, DecidableEq, Inhabited
 
 def Take.str : Take → String
   | .all => "all"
   | .first k => toString k
   | .nth k => s!"nth:{k}"
+  | .fold => "fold"
+  | .cnt => "count"
 
 /-- how many of `a` available elements leave the chunk iterator -/
 def Take.count (k : Take) (a : Nat) : Nat :=
@@ -78,11 +82,14 @@ def Take.count (k : Take) (a : Nat) : Nat :=
   | .all => a
   | .first k => min k a
   | .nth k => min (k + 1) a
+  | .fold => a
+  | .cnt => a
 
 /-- how many of those are discarded by the consumer itself (`nth`) rather than handed to the caller -/
 def Take.skipped (k : Take) (a : Nat) : Nat :=
   match k with
   | .nth k => min k a
+  | .cnt => a
   | _ => 0
 
 theorem Take.skipped_le_count (k : Take) (a : Nat) : k.skipped a ≤ k.count a := by
